@@ -4,7 +4,7 @@ PROFILES = ["release"]
 RULE = ("harness c19: compressed GLWE / GGSW / GGLWE / switching / automorphism / tensor / GGLWE->GGSW keys, entries of a compressed CGGI "
         "blind-rotation key, the LWE-related wrapper layouts (same bytes, same cells) and LWECompressed -> decompress_lwe on four backends: "
         "compressed encryption, decompression, per cell the standard glwe_encrypt_sk with Source::new(stored seed) and the shared "
-        "sequential error stream, serialise -> deserialise -> decompress; outputs are the stored seeds, every decompressed word and "
+        "sequential error stream, serialise -> deserialise -> decompress, into a receiver of the sender's layout AND into a generic receiver whose header fields (base2k, k, ranks, dnum, dsize) all differ and whose buffer is larger: written again it must give the sender's bytes, decompressed the same cells (GLWE, LWE, GGLWE, GGSW, switching / automorphism / tensor / GGLWE->GGSW keys and the LWE-related wrappers); outputs are the stored seeds, every decompressed word and "
         "the byte-comparison flags; the model reproduces seeds and words from (plaintext, secret, raw u64 streams, replayed errors)")
 ASSUMPTIONS = ["release-mode (wrapping) integer semantics", "DFT-domain products exact inside the backend's magnitude domain (C07)"]
 TRUSTED = ["ChaCha8 (stream_of seed) and rand_distr::Normal are inputs of the model"]
